@@ -45,6 +45,9 @@ PATTERNS = {
         lambda m: [{"k": "if", "type": "warning"}, lit("W:"), {"k": "endif"}, {"k": "if", "type": "critical"}, lit("E:"), {"k": "endif"},
                    ph(m["text"]), lit(" ("), ph(str(m["line"])), lit(")")],
     "%{message}": lambda m: [ph(m["text"])],
+    # conditional as a whole: a message of another type becomes an EMPTY line (not the raw message - seed C19k)
+    "%{if-warning}W: %{message}%{endif}":
+        lambda m: [{"k": "if", "type": "warning"}, lit("W: "), ph(m["text"]), {"k": "endif"}],
 }
 
 
